@@ -57,10 +57,11 @@ class TokCfg:
         do not denote themselves and are not generated."""
         if self.sep:
             return True
+        blank = ("SPACE", "TAB")          # tokens written as white space
         names = [n for n, _ in toks]
-        if names and names[-1] == "SPACE":
+        if names and names[-1] in blank:
             return False
-        return all(not (a == "SPACE" and b == "SPACE") for a, b in zip(names, names[1:]))
+        return all(not (a in blank and b in blank) for a, b in zip(names, names[1:]))
 
     def effective_skip(self, skip):
         """The documented meaning of the constructor argument skip_tokens: None = the defaults (SPACE and
@@ -185,9 +186,52 @@ def family_syn(terms, nts=("E", "A")):
             ((e, ((t2,),)), (a, ((t1,),)))]
 
 
+def kwskip_cfg():
+    """Keywords whose SOURCE token type is a skipped type: the comment "%pragma;" is the token PRAGMA and a
+    single tab is the token TAB; both are ordinary (not skipped) tokens, every other comment / blank is
+    skipped by the default skip set.  Order of operations: synonym -> keyword -> skip filter."""
+    return TokCfg("kwskip", r"(?P<SPACE>\s+)|(?P<COMMENT>%[a-z]*;)|(?P<a>a)",
+                  [("a", "a"), ("SPACE", " "), ("COMMENT", "%c;"), ("PRAGMA", "%pragma;"), ("TAB", "\t")],
+                  keywords={("COMMENT", "%pragma;"): "PRAGMA", ("SPACE", "\t"): "TAB"}, sep="",
+                  default_skip=("SPACE", "COMMENT"))
+
+
+def span2_cfg():
+    """Span token TEXT <<...>> whose closing characters are also the ordinary token GT."""
+    return TokCfg("span2", r"(?P<SPACE>\s+)|(?P<TEXT><<)|(?P<GT>>>)|(?P<a>a)",
+                  [("a", "a"), ("GT", ">>"), ("TEXT", "p")],
+                  span_matchers={"TEXT": r"(?P<BODY>[^>]*)>>"}, wrap={"TEXT": ("<<", ">>")})
+
+
+def spanline_texts():
+    """Texts in which the same line text occurs once as the closing line of a multi-line TEXT token and
+    once as a stand-alone line.  -> [(label, [(text, expected tokens), ...calls on one parser])]"""
+    a, gt = ("a", "a"), ("GT", ">>")
+    out = []
+    for x, xt in (("", []), ("a", [a]), ("a ", [a])):
+        for y, yt in (("", []), (" a", [a])):
+            line = x + ">>" + y
+            span = "<<p\n" + line
+            span_toks = [("TEXT", "p\n" + x)] + yt
+            plain_toks = xt + [gt] + yt
+            out.append(("one-text:span-first", [(span + "\n" + line, span_toks + plain_toks)]))
+            out.append(("one-text:plain-first", [(line + "\n" + span, plain_toks + span_toks)]))
+            out.append(("two-calls:span-first", [(span, span_toks), (line, plain_toks)]))
+            out.append(("two-calls:plain-first", [(line, plain_toks), (span, span_toks)]))
+    return out
+
+
+# any sequence of the three tokens (LL(1))
+SPANLINE_GRAMMAR = (("E", (("A", "E"), ())), ("A", (("a",), ("GT",), ("TEXT",))))
+
+
 def cfg_from_key(key):
     if key == "kw":
         return kw_cfg()
+    if key == "kwskip":
+        return kwskip_cfg()
+    if key == "span2":
+        return span2_cfg()
     if isinstance(key, str) and key.startswith("syn-"):
         return syn_cfg(key)
     if key == "span":
